@@ -7,10 +7,19 @@
 -/
 import AmiscModel.Generated.Consts
 import AmiscModel.Store
+import AmiscProofs.OrderProofs
 
 namespace Amisc.C05
 
 theorem ordering_contract : Gen.gridOrderIsProduct = true ∧ Gen.evalLoopsAreProduct = true := by decide
+
+/-- **What both sides enumerate**: in the order shared by the store and the evaluation loops (`prodIdx`), the data row of grid
+    coordinate `c` is row number `ravel sizes c` (row-major, last input fastest) — for every grid shape and every coordinate of it;
+    and there are exactly `shapeSize sizes` rows. -/
+theorem row_of_coordinate (sizes c : List Nat) (hl : c.length = sizes.length)
+    (hb : ∀ k, k < sizes.length → c.getD k 0 < sizes.getD k 0) :
+    (prodIdx sizes)[ravel sizes c]? = some c ∧ (prodIdx sizes).length = shapeSize sizes :=
+  ⟨Order.prodIdx_getElem_ravel sizes c hl hb, Order.length_prodIdx sizes⟩
 
 /-! the common order: last dimension fastest -/
 example : prodIdx [2, 3] = [[0, 0], [0, 1], [0, 2], [1, 0], [1, 1], [1, 2]] := by decide
